@@ -20,6 +20,8 @@ def run(ctx):
         batches.append((f"broker-fixture-{i}", f))
     for i in range(n):
         nb = rc.gen_new_batch(r, canonical_ms=True)
+        if any(rec["timestamp"] > 253402300799999999 for rec in nb["records"]):
+            continue        # instants beyond year 9999 (UTC): outside what a reader returning datetimes can represent (DESIGN, limits)
         if i % 3 == 0:       # whole-second timestamps: the known finding cannot explain a mismatch here
             for rec in nb["records"]:
                 rec["timestamp"] = (rec["timestamp"] // 1000000) * 1000000
